@@ -1032,6 +1032,10 @@ def range_cases(ctx, C, spec, active, dom, adom, hpr, rng, count, scale):
                 # is the 1e-8 margin of [l - 0.5 + EPS, u + 0.5 - EPS] lost in binary64 at the violated active bound?
                 bnd = float(active["lower"] if x < active["lower"] else active["upper"])
                 absorbed = bool(bnd + 0.5 - EPS == bnd + 0.5 or bnd - 0.5 + EPS == bnd - 0.5)
+                if kind == "lograndint":
+                    # with log scaling the margin is also lost once the round-off of exp(log(.)) at the
+                    # bound (about 4 ulp * |ln bound|) reaches EPS: from roughly 2**22 on
+                    absorbed = absorbed or bool(4 * math.ulp(bnd) * max(1.0, abs(math.log(bnd))) >= EPS)
             ctx.violation("property", "from_ndarray(%r) (inside get_ndarray_bounds %r) of %r with active %r = %r: outside the active sub-range" % (
                 v, bounds, dom, adom, x), case=case,
                 signature=dict(domain=dname, constructor=kind, op="from_ndarray", defect="decoded_outside_active",
